@@ -15,7 +15,8 @@
 (* The label requirement is split by layout (ImplDrift1Where / ImplDrift1WhereCompact) so  *)
 (* that a finding in one layout cannot hide a regression in the other; the weaker          *)
 (* ImplDrift1WhereUpToTranspose holds in both.                                             *)
-(* Arrays are small integers: every sum is exact and "%f" prints it exactly.               *)
+(* Arrays are small integers in units of 1 or 1/4 (the harness divides and multiplies):    *)
+(* every sum is exact and "%f" prints it exactly; rv1, rv2 are numerators in that unit.    *)
 EXTENDS Integers, Sequences, FiniteSets, TLC, IntLinAlg
 
 CONSTANTS Events
